@@ -97,9 +97,11 @@ impl<'a> Lexer<'a> {
         requires hay == sp_substr(self.buf, a, sp_len(self.buf)), slice_ok(self.buf, a, sp_len(self.buf)),
         ensures r == sp_starts_with(hay, needle),
             r && sp_ascii(needle) ==> a + sp_len(needle) <= sp_len(self.buf) && boundary(self.buf, a + sp_len(needle)),
+            r && sp_len(needle) > 0 ==> sp_char_at(self.buf, a) == sp_first_char(needle),
     { unimplemented!() }
 }
 pub uninterp spec fn sp_ascii(s: &str) -> bool;
+pub uninterp spec fn sp_first_char(s: &str) -> char;
 pub uninterp spec fn sp_no_newline(s: &str) -> bool;
 
 pub uninterp spec fn sp_word_chars(s: &str) -> bool;     // every char alphabetic or an apostrophe
@@ -109,7 +111,8 @@ impl<'a> Lexer<'a> {
     #[verifier::external_body]
     pub fn tokenize_word(&mut self, start: usize, word: &'a str, end: usize) -> (r: LexResult<'a>)
         ensures final(self).buf == old(self).buf, final(self).line == old(self).line, final(self).line_start == old(self).line_start,
-            final(self).cursor@ == old(self).cursor@, r.end == end, r.newlines == 0, r.new_line_start is None
+            final(self).cursor@ == old(self).cursor@, r.end == end, r.newlines == 0, r.new_line_start is None,
+            r.token.range.start == (SourceLocation { line: old(self).line, column: (start - old(self).line_start) as u32 }),
     { unimplemented!() }
 }
 
@@ -125,25 +128,97 @@ impl<'a> Lexer<'a> {
         requires sp_len(self.buf) <= u32::MAX, slice_ok(self.buf, start as int, sp_len(self.buf)), self.line_start <= start,
         ensures match r {
             Some(l) => l.token.range.start == (SourceLocation { line: self.line, column: (start - self.line_start) as u32 })
-                && l.end >= start && l.newlines == 0 && l.new_line_start is None && (l.token.id is ApostropheS || l.token.id is ApostropheRE),
+                && l.end >= start && l.end <= sp_len(self.buf) && boundary(self.buf, l.end as int)
+                && l.newlines == 0 && l.new_line_start is None && (l.token.id is ApostropheS || l.token.id is ApostropheRE),
             None => true,
         }
     { unimplemented!() }
 }
 
+/// number of '\n' bytes in buf[a..b) and the offset just after the last of them (meaningful when there is one)
+pub uninterp spec fn sp_count_nl(buf: &str, a: int, b: int) -> int;
+pub uninterp spec fn sp_after_last_nl(buf: &str, a: int, b: int) -> int;
+/// offset of the first occurrence of the character `c` at or after `a`, if any
+pub uninterp spec fn sp_find_char(buf: &str, a: int, c: char) -> Option<int>;
+impl<'a> Lexer<'a> {
+    /// the lexer has counted at most one line per byte it has passed (line numbers start at 1)
+    pub open spec fn line_ok(&self) -> bool { self.line as int <= self.cursor@ + 1 && sp_len(self.buf) < u32::MAX }
+    /// `self.char_indices.clone().inspect(|&(i, c)| if c == '\n' { newlines += 1; new_line_start = Some((i + 1) as u32) })
+    ///      .find(|&(_, c)| c == close_char).map(|(i, _)| i)`:
+    /// the offset of the first `close_char` at or after the cursor; on the way (up to and including the character found, or
+    /// to the end of the buffer) every newline is counted and the offset after the last one recorded
+    #[verifier::external_body]
+    pub fn find_close(&self, close_char: char, newlines: &mut u32, new_line_start: &mut Option<u32>) -> (r: Option<usize>)
+        requires self.wf(), *old(newlines) == 0, *old(new_line_start) is None,
+        ensures ({ let e = match r { Some(c) => c + 1, None => sp_len(self.buf) };
+            (r matches Some(c) ==> self.cursor@ <= c < sp_len(self.buf) && boundary(self.buf, c as int) && sp_find_char(self.buf, self.cursor@, close_char) == Some(c as int)
+                                   && ((close_char as u32) < 128 ==> boundary(self.buf, c + 1)))
+            && (r is None ==> sp_find_char(self.buf, self.cursor@, close_char) is None)
+            && *final(newlines) == sp_count_nl(self.buf, self.cursor@, e) && 0 <= sp_count_nl(self.buf, self.cursor@, e) <= e - self.cursor@
+            && (sp_count_nl(self.buf, self.cursor@, e) == 0 ==> *final(new_line_start) is None)
+            && (sp_count_nl(self.buf, self.cursor@, e) > 0 ==> *final(new_line_start) == Some(sp_after_last_nl(self.buf, self.cursor@, e) as u32)
+                    && self.cursor@ < sp_after_last_nl(self.buf, self.cursor@, e) <= e) }),
+    { unimplemented!() }
+    /// `self.buf.len()`
+    #[verifier::external_body] pub fn buf_len(&self) -> (r: usize) ensures r == sp_len(self.buf) { unimplemented!() }
+}
+pub uninterp spec fn sp_char_at(buf: &str, i: int) -> char;
+pub uninterp spec fn sp_char_len(c: char) -> int;       // len_utf8: 1 for ASCII, at most 4
+impl<'a> Lexer<'a> {
+    /// `find_word_start(&mut self.char_indices)`: skips ignorable whitespace (not newlines), delivers the next character
+    /// with its offset and steps over it; `'n'` is delivered at its first character
+    #[verifier::external_body]
+    pub fn find_word_start(&mut self) -> (r: Option<(usize, char)>)
+        requires old(self).wf(),
+        ensures final(self).buf == old(self).buf, final(self).line == old(self).line, final(self).line_start == old(self).line_start,
+            final(self).staged == old(self).staged,
+            match r {
+                Some((start, c)) => old(self).cursor@ <= start < sp_len(old(self).buf) && boundary(old(self).buf, start as int) && c == sp_char_at(old(self).buf, start as int)
+                    && final(self).cursor@ == start + sp_char_len(c) && final(self).cursor@ <= sp_len(old(self).buf) && boundary(old(self).buf, final(self).cursor@)
+                    && 1 <= sp_char_len(c) <= 4 && ((c as u32) < 128 ==> sp_char_len(c) == 1),
+                None => final(self).cursor@ == sp_len(old(self).buf),
+            },
+    { unimplemented!() }
+    /// `self.char_indices.clone().next().map(|(_, c)| c)`
+    #[verifier::external_body]
+    pub fn next_char(&self) -> (r: Option<char>)
+        requires self.wf(),
+        ensures match r {
+            Some(c) => self.cursor@ < sp_len(self.buf) && c == sp_char_at(self.buf, self.cursor@) && self.cursor@ + sp_char_len(c) <= sp_len(self.buf)
+                && boundary(self.buf, self.cursor@ + sp_char_len(c)) && ((c as u32) < 128 ==> sp_char_len(c) == 1),
+            None => self.cursor@ == sp_len(self.buf),
+        },
+    { unimplemented!() }
+    /// advance_to: moves the cursor FORWARD to idx (take_while_ref(i != idx): an idx behind the cursor would run to the end)
+    #[verifier::external_body]
+    pub fn advance_to(&mut self, idx: usize)
+        requires old(self).cursor@ <= idx <= sp_len(old(self).buf), boundary(old(self).buf, idx as int),
+        ensures final(self).cursor@ == idx, final(self).buf == old(self).buf, final(self).line == old(self).line, final(self).line_start == old(self).line_start,
+            final(self).staged == old(self).staged,
+    { unimplemented!() }
+}
+#[verifier::external_body] pub fn is_ignorable_punctuation(c: char) -> (r: bool) { unimplemented!() }
+#[verifier::external_body] pub fn char_is_numeric(c: char) -> (r: bool) { unimplemented!() }
+#[verifier::external_body] pub fn char_is_alphabetic(c: char) -> (r: bool) { unimplemented!() }
 pub uninterp spec fn lit_s_spec() -> &'static str;
 pub uninterp spec fn lit_re_spec() -> &'static str;
 /// the literals "'s" and "'re": ASCII, no newline
 #[verifier::external_body] pub fn lit_s() -> (r: &'static str) ensures r == lit_s_spec(), sp_ascii(r), sp_no_newline(r) { "'s" }
 #[verifier::external_body] pub fn lit_re() -> (r: &'static str) ensures r == lit_re_spec(), sp_ascii(r), sp_no_newline(r) { "'re" }
+pub uninterp spec fn lit_n_spec() -> &'static str;
+/// the literal "'n'": three ASCII bytes, no newline
+#[verifier::external_body] pub fn lit_n() -> (r: &'static str) ensures r == lit_n_spec(), sp_ascii(r), sp_no_newline(r), sp_len(r) == 3, sp_first_char(r) == '\'' { "'n'" }
 pub open spec fn suffix_ok(lx: Lexer<'_>, start: int, r: Option<LexResult<'_>>) -> bool {
     match r {
         Some(l) => (l.token.id is ApostropheS || l.token.id is ApostropheRE)
             && l.token.range.start == (SourceLocation { line: lx.line, column: (start - lx.line_start) as u32 })
-            && l.end >= start && l.newlines == 0 && l.new_line_start is None,
+            && l.end >= start && l.end <= sp_len(lx.buf) && boundary(lx.buf, l.end as int) && l.newlines == 0 && l.new_line_start is None,
         None => true,
     }
 }
+pub assume_specification<T, P: FnOnce(&T) -> bool>[Option::<T>::filter](o: Option<T>, p: P) -> (r: Option<T>)
+    requires o is Some ==> p.requires((&o->Some_0,)),
+    ensures o is None ==> r is None, o is Some ==> exists|b: bool| p.ensures((&o->Some_0,), b) && r == (if b { o } else { None::<T> });
 pub assume_specification<T, F: FnOnce() -> Option<T>>[Option::<T>::or_else](o: Option<T>, f: F) -> (r: Option<T>)
     requires o is None ==> f.requires(()),
     ensures o is Some ==> r == o, o is None ==> f.ensures((), r);
